@@ -201,6 +201,8 @@ _FLIP = {">": "<", "<": ">", ">=": "<=", "<=": ">=", "!=": "!=", "==": "=="}
 def decide(p, op, why="branch"):
     """truth of (p op 0) under ASSUME and the atom definitions"""
     p = co(p)
+    if ring.FROZEN:
+        p = ring.unfreeze(p)  # a frozen (stop-gradient) copy has the value of the original
     c = p.asconst()
     if c is not None:
         return {"<": c < 0, ">": c > 0, "<=": c <= 0, ">=": c >= 0, "!=": c != 0, "==": c == 0}[op]
